@@ -76,6 +76,8 @@ class Walk:
             p2, a2, b2 = hist["curve2"]
             self.cvs.append((p2, a2 % p2, b2 % p2))
             self.fps.append(E.CurveFp(p2, a2, b2, 1))
+        self.kinfo = {}      # per key / signing-key pool index: value G and declared order n of its generator, its curve
+        self.curveobjs = {}  # generator object id -> curves.Curve built around it
         self.tags = []       # per pool object: 0 = the walk's curve, 1 = the second curve, None = not a point
         self.pool = []       # real objects
         self.vals = []       # reference: ("pt", value) | ("key", value of its point, gen value) | ("skey", d, ...)
@@ -170,19 +172,46 @@ class Walk:
         E, cv, n = self.E, self.cv, self.n
         o = op[0]
         self.steps += 1
+        exp = self.expect_ok(op)          # computed before the call (the call may change attributes)
         try:
             out = self._do(op)
+            if exp is False:
+                self.fail("operation did not raise although it must", op=op)
         except BaseException as e:  # noqa
             if isinstance(e, (KeyboardInterrupt, SystemExit, MemoryError)):
                 raise
             out = "!" + common.errname(e)
-            if self.expect_ok(op):
+            if exp is True:
                 self.fail("operation raised %s" % out, op=op)
         self.outs.append(out)
 
     def expect_ok(self, op):
-        """does the value-semantics reference expect this operation to succeed?"""
-        return self._domain_ok(op)
+        """True: must succeed; False: must raise; None: not judged (a generator-flagged point without an order is
+        involved: `_maybe_precompute` raises AssertionError on every history alike, DESIGN section 2)"""
+        try:
+            return self._domain_ok(op)
+        except Exception:
+            return None
+
+    def flagged_noorder(self, obj):
+        """a PointJacobi with the generator flag but no order (reads immutable attributes only)"""
+        E = self.E
+        return isinstance(obj, E.PointJacobi) and bool(obj._PointJacobi__generator) and not obj._PointJacobi__order
+
+    def touches_flagged(self, op):
+        from ecdsa.keys import VerifyingKey, SigningKey
+        for idx in REFPOS.get(op[0], []):
+            if idx >= len(op) or op[idx] == "inf":
+                continue
+            obj = self.pool[op[idx]]
+            cands = [obj]
+            if isinstance(obj, VerifyingKey):
+                cands = [obj.pubkey.point, obj.pubkey.generator]
+            elif isinstance(obj, SigningKey):
+                cands = [obj.verifying_key.pubkey.point, obj.verifying_key.pubkey.generator]
+            if any(self.flagged_noorder(c) for c in cands):
+                return True
+        return False
 
     def kind(self, t):
         if t == "inf":
@@ -199,11 +228,33 @@ class Walk:
     def _domain_ok(self, op):
         o = op[0]
         k = self.kind(op[1]) if len(op) > 1 and (op[1] == "inf" or isinstance(op[1], int)) else None
+        if o in ("mul", "muladd", "keyverify", "sksign", "mkskey", "mkkey") and self.touches_flagged(op):
+            return None
+        if o == "keyprecompute":
+            pt = self.pool[op[1]].pubkey.point
+            if pt.order() is None and not op[2]:
+                return False                     # eager precompute of a key whose point has no order: AssertionError
+            return True
         if o in ("scale", "toaff", "muladd"):
             if k != "J":
-                return False
-        if o in ("neg", "fromaff"):
-            return k not in ("inf", "I")
+                return False                     # legacy Point / INFINITY have no scale, to_affine, mul_add
+        if o == "fromaff":
+            return k not in ("inf", "I")         # (not generated: outside Covered, see random_walk)
+        if o == "mkkey":
+            return self.opval(op[2]) is not None  # INFINITY is rejected (MalformedPointError, fix F14)
+        if o == "mkskey":
+            return 1 <= op[2] < self.pool[op[1]].order()
+        if o == "sksign":
+            inf = self.kinfo[op[1]]
+            n, d = inf["n"], self.vals[op[1]][2]
+            kk = op[3] % n
+            Rp = R.mul(inf["cv"], inf["G"], kk)
+            if Rp is None:
+                return False                     # k = 0 mod n: INFINITY.x() is None -> TypeError
+            r = Rp[0] % n
+            if r == 0 or (op[2] + d * r) % n == 0:
+                return False                     # RSZeroError
+            return True
         if o == "add":
             ta, tb = self.tag(op[1]), self.tag(op[2])
             return ta is None or tb is None or ta == tb       # points of different curves cannot be added
@@ -251,7 +302,7 @@ class Walk:
             self.toks.append("neg:%s" % self.tok(op[1]))
             r = -self.operand(op[1])
             cv, tg = self.cvof(op[1])
-            want = R.neg(cv, self.opval(op[1]))
+            want = R.neg(cv, self.opval(op[1]))          # the negative of the identity is the identity (fix F12)
             if self.value(r) != want:
                 self.fail("negation differs", op=op, got=self.value(r), expected=want)
             return self.ref_tok(r, ("pt", want), tg)
@@ -322,7 +373,10 @@ class Walk:
             else:
                 if r.to_string() != src.to_string() or r.privkey.secret_multiplier != src.privkey.secret_multiplier:
                     self.fail("unpickled signing key differs", op=op)
-            return self.ref_tok(r, self.vals[op[1]], self.tag(op[1]))
+            t = self.ref_tok(r, self.vals[op[1]], self.tag(op[1]))
+            if op[1] in self.kinfo:
+                self.kinfo[len(self.pool) - 1] = self.kinfo[op[1]]
+            return t
         if o == "copy":
             import copy
             self.toks.append("copy:%s" % self.tok(op[1]))
@@ -338,15 +392,17 @@ class Walk:
         if o == "mkkey":
             from ecdsa.keys import VerifyingKey
             self.toks.append("mkkey:%s:%s" % (self.tok(op[1]), self.tok(op[2])))
-            assert op[1] == 0, "keys are built on the walk's generator object o0"
-            vk = self._vk(self.operand(op[2]))
-            return self.ref_tok(vk, ("key", self.opval(op[2])))
+            info = self.ginfo(op[1])
+            vk = self._vk(self.operand(op[2]), op[1])
+            t = self.ref_tok(vk, ("key", self.opval(op[2])))
+            self.kinfo[len(self.pool) - 1] = info
+            return t
         if o == "keypoint":
             self.toks.append("keypoint:%s" % self.tok(op[1]))
             pt = self.operand(op[1]).pubkey.point
             if self.value(pt) != self.vals[op[1]][1]:
                 self.fail("key's point has another value", op=op, got=self.value(pt), expected=self.vals[op[1]][1])
-            return self.ref_tok(pt, ("pt", self.vals[op[1]][1]), 0)
+            return self.ref_tok(pt, ("pt", self.vals[op[1]][1]), self.kinfo[op[1]]["tag"])
         if o == "keyprecompute":
             self.toks.append("keyprecompute:%s:%d" % (self.tok(op[1]), op[2]))
             self.operand(op[1]).precompute(lazy=bool(op[2]))
@@ -365,7 +421,7 @@ class Walk:
             self.toks.append("keyverify:%s:%d:%d:%d" % (self.tok(op[1]), op[2], op[3], op[4]))
             g = self.operand(op[1]).pubkey.verifies(op[2], Signature(op[3], op[4]))
             self.mutated = True
-            want = self.ref_verify(self.vals[op[1]][1], op[2], op[3], op[4])
+            want = self.ref_verify(self.vals[op[1]][1], op[2], op[3], op[4], self.kinfo[op[1]])
             if bool(g) != want:
                 self.fail("verification differs from the textbook rule on the value", op=op, got=g, expected=want)
             return "T" if g else "F"
@@ -379,17 +435,22 @@ class Walk:
             return "T" if g else "F"
         if o == "mkskey":
             self.toks.append("mkskey:%s:%d" % (self.tok(op[1]), op[2]))
-            sk = self._sk(op[2])
+            info = self.ginfo(op[1])
+            sk = self._sk(op[2], op[1])
             self.mutated = True
-            Q = R.mul(cv, self.G, op[2])
-            return self.ref_tok(sk, ("skey", Q, op[2]))
+            Q = R.mul(info["cv"], info["G"], op[2])
+            t = self.ref_tok(sk, ("skey", Q, op[2]))
+            self.kinfo[len(self.pool) - 1] = info
+            return t
         if o == "sksign":
             self.toks.append("sksign:%s:%d:%d" % (self.tok(op[1]), op[2], op[3]))
             sig = self.operand(op[1]).privkey.sign(op[2], op[3])
             self.mutated = True
             d = self.vals[op[1]][2]
+            info = self.kinfo[op[1]]
+            n, cv = info["n"], info["cv"]
             k = op[3] % n
-            Rp = R.mul(cv, self.G, k)
+            Rp = R.mul(cv, info["G"], k)
             r = Rp[0] % n
             s = pow(k, -1, n) * (op[2] + d * r) % n
             if (int(sig.r), int(sig.s)) != (r, s):
@@ -398,31 +459,39 @@ class Walk:
         if o == "skvk":
             self.toks.append("skvk:%s" % self.tok(op[1]))
             vk = self.operand(op[1]).verifying_key
-            return self.ref_tok(vk, ("key", self.vals[op[1]][1]))
+            t = self.ref_tok(vk, ("key", self.vals[op[1]][1]))
+            if t.startswith("+"):
+                self.kinfo[len(self.pool) - 1] = self.kinfo[op[1]]
+            return t
         if o == "raw":
             self.toks.append("raw:%s" % self.tok(op[1]))
             return self.raw(self.operand(op[1]))
         raise ValueError(o)
 
     # ---- keys on a (possibly toy) curve
-    def curve_object(self):
-        if self.curveobj is None:
-            # a real curves.Curve around the generator OBJECT of this walk (pool[0]), so that keys share it
+    def curve_object(self, g=0):
+        """a real curves.Curve around the pool OBJECT g (a PointJacobi with a declared order), so that keys share it"""
+        gobj = self.pool[g]
+        if id(gobj) not in self.curveobjs:
             from ecdsa import curves
-            self.curveobj = curves.Curve("walk", self.fp, self.pool[0], (1, 3, 9999, self.p))
-        return self.curveobj
+            self.curveobjs[id(gobj)] = curves.Curve("walk%d" % g, self.fps[self.tags[g] or 0], gobj, (1, 3, 9999, self.p, g))
+        return self.curveobjs[id(gobj)]
+
+    def ginfo(self, g):
+        tg = self.tags[g] or 0
+        return {"G": self.vals[g][1], "n": int(self.pool[g].order()), "cv": self.cvs[tg], "tag": tg}
 
     @property
     def G(self):
         return self.vals[0][1]
 
-    def _vk(self, pt):
+    def _vk(self, pt, g=0):
         from ecdsa.keys import VerifyingKey
-        return VerifyingKey.from_public_point(pt, self.curve_object(), validate_point=False)
+        return VerifyingKey.from_public_point(pt, self.curve_object(g), validate_point=False)
 
-    def _sk(self, d):
+    def _sk(self, d, g=0):
         from ecdsa.keys import SigningKey
-        return SigningKey.from_secret_exponent(d, self.curve_object())
+        return SigningKey.from_secret_exponent(d, self.curve_object(g))
 
     def ref_encode(self, P, enc):
         l = (len("%x" % self.p) + 1) // 2
@@ -430,12 +499,12 @@ class Walk:
         return {"raw": xs + ys, "uncompressed": b"\x04" + xs + ys, "compressed": bytes([2 + (P[1] & 1)]) + xs,
                 "hybrid": bytes([6 + (P[1] & 1)]) + xs + ys}[enc]
 
-    def ref_verify(self, Q, e, r, s):
-        n, cv = self.n, self.cv
+    def ref_verify(self, Q, e, r, s, info):
+        n, cv = info["n"], info["cv"]
         if not (1 <= r <= n - 1 and 1 <= s <= n - 1):
             return False
         c = pow(s, -1, n)
-        X = R.add(cv, R.mul(cv, self.G, e * c % n), R.mul(cv, Q, r * c % n))
+        X = R.add(cv, R.mul(cv, info["G"], e * c % n), R.mul(cv, Q, r * c % n))
         return X is not None and X[0] % n == r
 
     # ---- hidden state
@@ -625,7 +694,7 @@ def random_walk(ctx, cvspec, steps, named=None):
     w = Walk(hist)
     for spec in objs:
         w.make(spec)
-    pt_ops = ["x", "y", "scale", "toaff", "fromaff", "neg", "dbl", "add", "add", "mul", "mul", "muladd", "eq", "eq", "pickle", "copy", "raw", "raw"]
+    pt_ops = ["x", "y", "order", "scale", "toaff", "fromaff", "neg", "dbl", "add", "add", "mul", "mul", "muladd", "eq", "eq", "pickle", "copy", "raw", "raw"]
     key_ops = ["keypoint", "keyprecompute", "keyser", "keyverify", "keyeq", "pickle", "raw", "keyverify"]
     for _ in range(steps):
         live = w.live()
@@ -650,15 +719,18 @@ def random_walk(ctx, cvspec, steps, named=None):
         ks = [0, 1, 2, 3, -1, -2, n - 1, n, n + 1, 2 * n + 1, rng.randrange(-3 * n, 3 * n), rng.randrange(1, n)]
         if r < 0.62 or not pts:
             o = rng.choice(pt_ops)
-            if o in ("x", "y", "neg", "dbl", "raw"):
-                op = [o, anyp() if o in ("x", "y", "dbl") else rng.choice(pts)]
+            if o in ("x", "y", "order", "neg", "dbl", "raw"):
+                op = [o, anyp() if o != "raw" else rng.choice(pts)]
             elif o in ("scale", "toaff"):
-                op = [o, rng.choice(js)] if js else ["x", rng.choice(pts)]
+                # mostly PointJacobi; legacy points, INFINITY and its copies have no such method (AttributeError)
+                op = [o, rng.choice(js)] if js and rng.random() < 0.9 else [o, anyp()]
             elif o == "fromaff":
+                # from_affine(INFINITY) builds PointJacobi(None, None, None, 1) without raising - a meaningless object that
+                # the model does not represent; it is excluded from `Covered` (Props/C19.lean: IsFinite), hence not generated.
+                # A flagged copy of a point without order is generated (mul on it: AssertionError on every history alike).
                 i = rng.choice(pts)
-                # a generator-flagged copy needs an order (else AssertionError on every history alike)
                 has_order = w.pool[i].order() is not None
-                op = [o, i, 1 if has_order and rng.random() < 0.4 else 0]
+                op = [o, i, 1 if rng.random() < (0.4 if has_order else 0.08) else 0]
             elif o == "eq":
                 op = [o, anyp(), anyp()]
             elif o == "add":
@@ -669,27 +741,35 @@ def random_walk(ctx, cvspec, steps, named=None):
             elif o == "mul":
                 op = [o, anyp(), rng.choice(ks)]
             elif o == "muladd":
-                if js:
+                if not js or rng.random() < 0.05:
+                    op = [o, anyp(), rng.choice(ks), anyp(), rng.choice(ks)]      # no mul_add on Point / INFINITY
+                    if op[1] != "inf" and w.kind(op[1]) == "J":
+                        op = ["x", op[1]]
+                else:
                     # (mul_add has no curve check: operands of different curves give a meaningless point without an
-                    # error - garbage in, outside the property; the walks keep its operands on one curve)
+                    # error - garbage in, outside the property and outside Inv; the walks keep its operands on one curve)
                     i = rng.choice(js)
                     c = [j for j in pts if w.tags[j] == w.tags[i]]
                     op = [o, i, rng.choice(ks), rng.choice(c) if rng.random() < 0.9 else rng.choice(ids + ["inf"]), rng.choice(ks)]
-                else:
-                    op = ["x", rng.choice(pts)]
             else:
                 op = [o, rng.choice(pts)]
         elif r < 0.72:
-            cands = [i for i in pts if w.tags[i] == 0 and w.vals[i][1] is not None and not (w.kind(i) == "J" and w.pool[i] == w.E.INFINITY)]
-            op = ["mkkey", 0, rng.choice(cands)] if cands and rng.random() < 0.6 else ["mkskey", 0, rng.choice([1, 2, n - 1, rng.randrange(1, n)])]
+            # a Curve object can be built around any PointJacobi with a declared non-zero order (mostly o0)
+            gens = [i for i in js if w.pool[i].order()]
+            g = 0 if (rng.random() < 0.75 or not gens) else rng.choice(gens)
+            ng = int(w.pool[g].order())
+            cands = [i for i in pts if w.tags[i] == w.tags[g] and not (w.kind(i) == "J" and w.pool[i] == w.E.INFINITY)]
+            if cands and rng.random() < 0.6:
+                # INFINITY and its copies are refused as public points (MalformedPointError)
+                op = ["mkkey", g, rng.choice(ids + ["inf"]) if rng.random() < 0.08 else rng.choice(cands)]
+            else:
+                op = ["mkskey", g, rng.choice([1, 2, ng - 1, rng.randrange(1, ng), rng.randrange(1, ng), 0, ng, ng + 3, -1])]
         elif r < 0.92 and keys:
             o = rng.choice(key_ops)
             k = rng.choice(keys)
             if o == "keyprecompute":
-                if w.pool[k].pubkey.point.order() is None:
-                    op = ["keyser", k, rng.randrange(4)]
-                else:
-                    op = [o, k, rng.randrange(2)]
+                # (eager precompute of a key whose point has no order raises AssertionError, after the point was replaced)
+                op = [o, k, rng.randrange(2)]
             elif o == "keyser":
                 op = [o, k, rng.randrange(4)]
             elif o == "keyverify":
@@ -699,8 +779,9 @@ def random_walk(ctx, cvspec, steps, named=None):
                 if sks and m < 0.6:
                     s_ = rng.choice(sks)
                     d = w.vals[s_][2]
-                    kk = rng.randrange(1, n)
-                    Rp = R.mul(w.cv, G, kk)
+                    inf_ = w.kinfo[s_]
+                    kk = rng.randrange(1, inf_["n"])
+                    Rp = R.mul(inf_["cv"], inf_["G"], kk)
                     rr = Rp[0] % n
                     ss = pow(kk, -1, n) * (e + d * rr) % n
                     # verify with the key of that signing key if it is live, else with k (forgery)
@@ -720,14 +801,8 @@ def random_walk(ctx, cvspec, steps, named=None):
                 op = [o, k]
         elif sks:
             s_ = rng.choice(sks)
-            op = rng.choice([["sksign", s_, rng.randrange(0, 4 * n), rng.randrange(1, n)], ["skvk", s_], ["pickle", s_], ["raw", s_]])
-            if op[0] == "sksign":
-                # r = 0 or s = 0 raise RSZeroError on every history alike: avoid on toy curves
-                kk = op[3] % n
-                Rp = R.mul(w.cv, G, kk)
-                rr = Rp[0] % n if Rp else 0
-                if rr == 0 or (op[2] + w.vals[s_][2] * rr) % n == 0:
-                    op = ["skvk", s_]
+            # (nonces with r = 0 or s = 0 raise RSZeroError, k = 0 mod n a TypeError: generated, expected by the reference)
+            op = rng.choice([["sksign", s_, rng.randrange(0, 4 * n), rng.randrange(0, 2 * n)], ["skvk", s_], ["pickle", s_], ["raw", s_]])
         else:
             op = ["x", rng.choice(pts)]
         hist["ops"].append(op)
@@ -775,6 +850,9 @@ def directed_histories():
                       ["raw", 4], ["raw", 0], ["raw", 1], ["keyprecompute", 3, 0], ["keypoint", 3], ["raw", 5], ["keyser", 3, 2]]))
         out.append(H([["mkskey", 0, 1], ["skvk", 3], ["keypoint", 4], ["raw", 4], ["sksign", 3, 7, 3], ["raw", 0], ["keyprecompute", 4, 0],
                       ["keypoint", 4], ["raw", 5], ["raw", 0], ["pickle", 3], ["skvk", 6], ["keypoint", 7], ["raw", 7], ["sksign", 6, 7, 3]]))
+        out.append(H([["neg", "inf"], ["pickle", "inf"], ["neg", 3], ["eq", 3, "inf"], ["scale", "inf"], ["scale", 2], ["toaff", 3], ["muladd", 2, 1, 1, 1],
+                      ["mkkey", 0, "inf"], ["mkkey", 0, 3], ["mkskey", 0, 0], ["mkskey", 0, n], ["order", 0], ["order", 2], ["order", "inf"], ["order", 3],
+                      ["fromaff", 1, 1], ["mkkey", 4, 2], ["mkskey", 4, 3], ["sksign", 6, 5, 0], ["sksign", 6, 5, 3], ["skvk", 6], ["keyverify", 7, 5, 1, 1]]))
         out.append(H([["mul", 0, n], ["pickle", "inf"], ["copy", "inf"], ["eq", 3, "inf"], ["eq", "inf", 3], ["eq", 3, 4], ["add", 0, 3], ["add", 3, 0],
                       ["add", 2, 3], ["add", 3, 2], ["add", 3, 4], ["add", 3, "inf"], ["add", "inf", 3], ["mul", 3, 5], ["dbl", 3], ["muladd", 0, 7, 3, 9],
                       ["eq", 0, 3], ["eq", 3, 1], ["eq", 2, 3], ["x", 3], ["pickle", 3], ["raw", 3], ["eq", 1, 0]]))
